@@ -98,6 +98,7 @@ type DiskEnv struct {
 	FiredInEvict int
 	Counts     map[byte]int   // call class -> count (whole run)
 	Monitor    func(d *SimDisk, e *DiskOp)
+	KeepReads  bool // keep ReadAt/Stat entries in the log
 }
 
 type SimDisk struct {
@@ -203,6 +204,14 @@ func (d *SimDisk) log(op DiskOp) {
 	op.Kind2 = d.env.CurKind
 	if d.env.CurTask != nil {
 		op.Task = d.env.CurTask()
+	}
+	if (op.Kind == 'R' || op.Kind == 'S') && !d.env.KeepReads {
+		// reads do not change the image; they are only kept in the log
+		// when an oracle evaluates them afterwards (C19)
+		if d.env.Monitor != nil {
+			d.env.Monitor(d, &op)
+		}
+		return
 	}
 	d.Log = append(d.Log, op)
 	if d.env.Monitor != nil {
